@@ -8,7 +8,14 @@ cd "$wt"
 res=""
 git apply "$d/patch.diff" && res="$res apply=ok" || res="$res apply=FAIL"
 go build ./... >/dev/null 2>&1 && res="$res build=ok" || res="$res build=FAIL"
-go test -mod=mod -vet=off -count=1 ./... > /tmp/vs-suite-$$.log 2>&1 && res="$res suite=pass" || res="$res suite=FAIL($(grep -c '^FAIL\|^--- FAIL' /tmp/vs-suite-$$.log))"
+if go test -mod=mod -vet=off -count=1 ./... > /tmp/vs-suite-$$.log 2>&1; then res="$res suite=pass"; else
+  # timing tests (pkg/eventbus stress, sherpa read timers) fail on a loaded machine with or without a change: the packages
+  # that failed are run again on their own, twice at most, before the suite counts as failing
+  pk=$(grep '^FAIL[[:space:]]' /tmp/vs-suite-$$.log | awk '{print $2}' | sort -u | tr '\n' ' ')
+  ok=no
+  for try in 1 2; do if [ -n "$pk" ] && go test -mod=mod -vet=off -count=1 $pk > /tmp/vs-suite2-$$.log 2>&1; then ok=yes; break; fi; done
+  [ $ok = yes ] && res="$res suite=pass(after-rerun-of:${pk// /,})" || res="$res suite=FAIL($pk)"
+fi
 python3 - "$d" "$wt" <<'P'
 import json,sys,shutil,os
 d,wt=sys.argv[1],sys.argv[2]
